@@ -816,7 +816,7 @@ def gen_script(rng, world, dims):
                           "cls": rng.choice(EXC_CLASSES),
                           "msg": gen_message(rng, dims["hostile"])}
         if dims.get("log_level_changes") and name in ("before_feature", "before_rule") and rng.random() < 0.3:
-            ent["acts"].append({"a": "root_level", "level": rng.choice([10, 30, 40, 50])})
+            ent["acts"].append({"a": "root_level", "level": rng.choice([0, 10, 30, 40, 50])})
         if dims["hook_skips"] and name in ("before_feature", "before_rule", "before_scenario") \
                 and rng.random() < 0.25:
             ent["acts"].append({"a": "skip_element", "how": rng.choice(["skip", "mark_skipped"]),
@@ -830,7 +830,7 @@ def gen_script(rng, world, dims):
             if rng.random() < dims["p_hook_fail"] * 0.5:
                 ent["out"] = {"kind": "exc", "cls": "Exception", "msg": "all-hook"}
             if dims.get("log_level_changes") and name == "before_all" and rng.random() < 0.5:
-                ent["acts"].append({"a": "root_level", "level": rng.choice([10, 30, 40, 50])})
+                ent["acts"].append({"a": "root_level", "level": rng.choice([0, 10, 30, 40, 50])})
             if ent["acts"] or ent["out"]["kind"] != "ok":
                 script["hook|%s|||0" % name] = ent
 
